@@ -614,5 +614,5 @@ var specSock = pbt.Spec[Plan]{Prop: "C13", Name: "plans-sock", Gen: gen("sock", 
 func TestPlansMem(t *testing.T)  { pbt.Run(t, specMem) }
 func TestPlansSock(t *testing.T) { pbt.Run(t, specSock) }
 func TestReplay(t *testing.T) {
-	pbt.ReplayMain(t, pbt.Replayer(specMem), pbt.Replayer(specSock), pbt.Replayer(specRetained))
+	pbt.ReplayMain(t, pbt.Replayer(specMem), pbt.Replayer(specSock), pbt.Replayer(specRetained), pbt.Replayer(specPeers))
 }
